@@ -964,6 +964,16 @@ def check_history(case):
         want = problem_signature(fresh.setup_optim_problem(_prices(tgf, 7), tgf))
         if got != want:
             out.append(fail('C10.history.same_problem_as_fresh_objects', 'portfolio:Portfolio.setup_optim_problem', case, dict(case), 'problem after the history differs from the problem of fresh objects'))
+        # an asset that holds the grid (set before) set up WITHOUT passing the grid again: the same problem as a fresh asset on that grid,
+        # whatever the other assets sharing the grid object did in between
+        for a_used, a_new in zip(assets, fresh.assets):
+            tgn = grids[gname]()
+            g1 = problem_signature(a_used.setup_optim_problem(pr))
+            g2 = problem_signature(a_new.setup_optim_problem(_prices(tgn, 7), tgn))
+            if g1 != g2:
+                out.append(fail('C10.history.asset_set_up_on_the_grid_it_holds_equals_fresh', 'assets:Asset.setup_optim_problem', case, dict(case),
+                                f'asset {a_used.name} ({type(a_used).__name__}) set up without passing the grid again differs from a fresh asset on the same grid'))
+                break
         # the objects' own parameters are what they were: the saved form of every asset equals that of a fresh one
         for a_used, a_new in zip(assets, fresh.assets):
             j1, j2 = eao.serialization.to_json(a_used), eao.serialization.to_json(a_new)
